@@ -54,7 +54,19 @@ def cases(draw):
         )
 
     nested = st.lists(st.one_of(leaf, leaf, batch(branch)), min_size=1, max_size=2)
-    body = draw(st.lists(st.one_of(leaf, batch(branch), batch(branch), batch(nested)), min_size=1, max_size=3))
+    # a branch that parks on a short timer (wait / retry back-off) next to siblings that are still inside a user
+    # function when the timer fires (and, with timer lag, when the branch re-parks with an already-due timestamp)
+    parker = st.one_of(
+        st.just([{"op": "wait", "secs": 1}]),
+        st.builds(lambda k, d: [{"op": "step", "beh": {"kind": "fail_by_attempt", "k": k, "err": "UserError", "v": 1}, "sem": "least",
+                                 "retry": {"kind": "table", "max": 4, "delays": [d], "nonretry": []}}], st.integers(1, 2), st.sampled_from([0, 1, 1, 2])),
+        st.just([{"op": "wfcond", "init": 0, "decisions": [["continue", 1], ["continue", 0], ["stop"]], "trans": "count"}]),
+    )
+    runner = st.builds(lambda sl, y: [{"op": "step", "beh": {"kind": "ret", "v": 5}, "sem": "least", "retry": {"kind": "none"}, "sleep": sl, "yields": y}],
+                       st.sampled_from([1.5, 2.5, 3.5, 5.0]), st.integers(0, 2))
+    inflight = st.lists(st.one_of(parker, parker, runner), min_size=2, max_size=4).filter(lambda bs: any("sleep" in b[0] for b in bs) and any("sleep" not in b[0] for b in bs)).map(
+        lambda bs: {"op": "parallel", "branches": bs, "cfg": {"max_concurrency": None, "completion": {"min": None, "tol": len(bs), "pct": None}}})
+    body = draw(st.lists(st.one_of(leaf, batch(branch), batch(branch), batch(nested), inflight, inflight), min_size=1, max_size=3))
     return {
         "prog": {"body": body},
         "backend": draw(G.backend_cfgs()),
